@@ -8,6 +8,7 @@
   get_modes_slices                                                            -> gen_modes_slices_*     (the three slices as (start, stop) with
                                                                                  None = Python's open end, the shape of the block list)
   make_grid (exponax/_utils.py; full / zero_centered / indexing symbolic)     -> gen_make_grid          (coordinate c at grid index idx, K)
+  wrap_bc (exponax/_utils.py)                                                 -> compared with its expected text; gen_wrap_bc_pad_before / _after
 
 A small symbolic interpreter: every function body is EXECUTED on symbolic values; calls of other translated functions are executed the
 same way (inlined), so a change in a callee changes every generated caller.  Values and their meaning for ONE array element:
@@ -99,7 +100,9 @@ class Pi:
 
 
 class Imag:
-    """the literal 1j"""
+    """the literal 1j (sign = 1) or -1j (sign = -1)"""
+    def __init__(self, sign=1):
+        self.sign = sign
 
 
 class Cplx:
@@ -322,6 +325,10 @@ class Interp:
             v = self.ev(e.operand, env)
             if isinstance(v, Int):
                 return Int("Z", f"(- {v.z()})")
+            if isinstance(v, Imag):
+                return Imag(-v.sign)
+            if isinstance(v, ARRAYS) and v.ty == "K":
+                return type(v)("K", f"(oopp {v.term})")
             raise TranslationError("unary minus on " + type(v).__name__)
         if isinstance(e, ast.BoolOp) and isinstance(e.op, ast.And):
             vs = [self.ev(x, env) for x in e.values]
@@ -407,8 +414,12 @@ class Interp:
         # 2 * pi / L
         if isinstance(op, ast.Mult) and isinstance(a, Int) and isinstance(b, Pi):
             return Rat(f"(omul {toK(a)} pi)")
-        if isinstance(op, ast.Mult) and isinstance(a, Imag) and isinstance(b, (Mesh, Grid)) and b.ty == "K":
-            return Cplx(type(b), "(fz 0)", b.term)
+        if isinstance(op, ast.Mult) and isinstance(a, Imag) and isinstance(b, (Mesh, Grid)) and b.ty in ("K", "Z"):
+            im = lift(b, "K")
+            return Cplx(type(b), "(fz 0)", im if a.sign == 1 else f"(oopp {im})")
+        if isinstance(op, ast.Mult) and isinstance(a, Cplx) and (isinstance(b, (Int, Rat)) or (isinstance(b, a.kind) and b.ty in ("K", "Z"))):
+            x = lift(b, "K")
+            return Cplx(a.kind, f"(omul {a.re} {x})", f"(omul {a.im} {x})")
         if isinstance(a, (Int, Rat)) and isinstance(b, (Int, Rat)):
             o = {ast.Add: "oadd", ast.Sub: "osub", ast.Mult: "omul", ast.Div: "odiv"}.get(type(op))
             if o:
@@ -430,6 +441,11 @@ class Interp:
             return AxList(v.ty, f"(let a := (D - 1 - a)%nat in {v.term})")
         if isinstance(v, Grid) and ast.unparse(s) in ("(jnp.newaxis, ...)", "(None, ...)"):
             return v                                           # (...) -> (1, ...): the same element
+        if isinstance(s, ast.Constant) and isinstance(s.value, int) and not isinstance(s.value, bool) and s.value >= 0:
+            if isinstance(v, Mesh):                            # component of a (D, ...) array: c := literal
+                return Grid(v.ty, f"(let c := {s.value}%nat in {v.term})")
+            if isinstance(v, Cplx) and v.kind is Mesh:
+                return Cplx(Grid, f"(let c := {s.value}%nat in {v.re})", f"(let c := {s.value}%nat in {v.im})")
         raise TranslationError("subscript " + ast.unparse(e))
 
     def kw(self, e, env, allowed):
@@ -463,11 +479,34 @@ class Interp:
             raise TranslationError("jnp.linspace " + ast.unparse(e))
         if fn == "jnp.where" and len(e.args) == 3 and not e.keywords:
             c, a, b = (self.ev(x, env) for x in e.args)
+            if isinstance(a, Cplx) and isinstance(c, a.kind) and c.ty == "bool" and isinstance(b, Rat) and b.term == "(fz 0)":
+                return Cplx(a.kind, f"(if {c.term} then {a.re} else (fz 0))", f"(if {c.term} then {a.im} else (fz 0))")
             cls = same_container([c, a, b])
             if cls is None or not (isinstance(c, cls) and c.ty == "bool"):
                 raise TranslationError("jnp.where condition " + ast.unparse(e.args[0]))
             ty = "Z" if all((isinstance(v, Int) or (isinstance(v, ARRAYS) and v.ty == "Z")) for v in (a, b)) else "K"
             return cls(ty, f"(if {c.term} then {lift(a, ty)} else {lift(b, ty)})")
+        if fn == "jnp.imag" and len(e.args) == 1 and not e.keywords:
+            v = self.ev(e.args[0], env)
+            if isinstance(v, Cplx):
+                return v.kind("K", v.im)
+            raise TranslationError("jnp.imag of " + type(v).__name__)
+        if fn == "jnp.sign" and len(e.args) == 1 and not e.keywords:
+            v = self.ev(e.args[0], env)
+            if isinstance(v, ARRAYS) and v.ty == "Z":
+                return type(v)("Z", f"(Z.sgn {v.term})")
+            raise TranslationError("jnp.sign of " + type(v).__name__)
+        if fn == "jnp.zeros_like" and len(e.args) == 1 and not e.keywords:
+            v = self.ev(e.args[0], env)
+            if isinstance(v, Cplx):
+                return Cplx(v.kind, "(fz 0)", "(fz 0)")
+            raise TranslationError("jnp.zeros_like of " + type(v).__name__)
+        if fn == "jnp.concatenate" and len(e.args) == 1 and isinstance(e.args[0], ast.List):
+            k = self.kw(e, env, {"axis"})
+            items = [self.ev(x, env) for x in e.args[0].elts]
+            if isinstance(k.get("axis"), Int) and k["axis"].term == "0" and items and all(isinstance(i, Cplx) and i.kind is Grid for i in items):
+                return ("channels", items)
+            raise TranslationError("jnp.concatenate " + ast.unparse(e))
         if fn == "jnp.abs" and len(e.args) == 1 and not e.keywords:
             v = self.ev(e.args[0], env)
             if isinstance(v, ARRAYS) and v.ty == "Z":
@@ -585,6 +624,51 @@ def modes_slices(ip):
             "Definition gen_modes_slices_blocks (D : nat) : nat := Nat.pow 2 (D - 1).")
 
 
+def injections(ip):
+    """the forcing arrays of VorticityConvection2dKolmogorov / ProjectedConvection3dKolmogorov (exponax/nonlin_fun): the constructor is
+    executed after its super().__init__ call (compared with its expected text) with derivative_operator = build_derivative_operator(D, L, N)
+    (what BaseStepper hands to _build_nonlinear_fun, checked by etdrk.py / buildnl.py), D = 2 resp. 3"""
+    res = []
+    for fname, cname, D, sup in (
+            ("_vorticity_convection.py", "VorticityConvection2dKolmogorov", 2,
+             "super().__init__(num_spatial_dims, num_points, convection_scale=convection_scale, derivative_operator=derivative_operator, dealiasing_fraction=dealiasing_fraction)"),
+            ("_projected_convection.py", "ProjectedConvection3dKolmogorov", 3,
+             "super().__init__(num_spatial_dims, num_points, derivative_operator=derivative_operator, dealiasing_fraction=dealiasing_fraction)")):
+        tree = ast.parse(open(os.path.join(REPO, "exponax", "nonlin_fun", fname)).read())
+        cls = [n for n in tree.body if isinstance(n, ast.ClassDef) and n.name == cname]
+        if len(cls) != 1:
+            raise TranslationError("class " + cname)
+        init = [m for m in cls[0].body if isinstance(m, ast.FunctionDef) and m.name == "__init__"]
+        body = strip_doc(init[0].body)
+        if ast.unparse(body[0]) != ast.unparse(ast.parse(sup).body[0]):
+            raise TranslationError(cname + ": super().__init__ call " + ast.unparse(body[0])[:200])
+        last = body[-1]
+        if not (isinstance(last, ast.Assign) and ast.unparse(last.targets[0]) == "self.injection"):
+            raise TranslationError(cname + ": last statement is not the injection")
+        Dv, Nv = Int("nat", "D"), Int("Z", "N")            # D stays a name: bound to the literal in the emitted definition
+        env = {"num_spatial_dims": Dv, "num_points": Nv, "injection_mode": Int("Z", "kinj"), "injection_scale": Rat("gamma"),
+               "derivative_operator": ip.call("build_derivative_operator", [Dv, Rat("L"), Nv], {})}
+        try:
+            ip.block(list(body[1:-1]) + [ast.Return(value=last.value)], env)
+            raise TranslationError(cname + ": no value")
+        except Return as r:
+            v = r.v
+        # the generated terms mention D as a variable (seq 0 D, mesh_axis false D c): bind it
+        if D == 2:
+            if not (isinstance(v, Grid) and v.ty == "K"):
+                raise TranslationError(cname + ": injection is not a real array of shape (...)")
+            res.append("Definition gen_injection2d (L gamma : K) (N kinj : Z) (idx : list Z) : K :=\n  let D := 2%nat in\n  " + v.term + ".\n")
+        else:
+            if not (isinstance(v, tuple) and v[0] == "channels" and len(v[1]) == 3):
+                raise TranslationError(cname + ": injection is not the concatenation of three channels")
+            chans = v[1]
+            res.append("Definition gen_injection3d (L gamma : K) (N kinj : Z) (channel : nat) (idx : list Z) : K * K :=\n  let D := 3%nat in\n"
+                       "  match channel with\n"
+                       + "".join(f"  | {i}%nat => ({c.re}, {c.im})\n" for i, c in enumerate(chans))
+                       + "  | _ => (fz 0, fz 0)\n  end.\n")
+    return "\n".join(res)
+
+
 PRELUDE = """(* GENERATED by harness/translate/spectral.py from /repo/exponax/_spectral.py -- do not edit. *)
 From Coq Require Import ZArith List Bool.
 From EXV Require Import Base.Scalar Layout.Freq.
@@ -650,6 +734,18 @@ def generate():
     ipu = Interp(ast.parse(open(os.path.join(REPO, "exponax", "_utils.py")).read()))
     emit("make_grid", "(full zero_centered xy : bool) (D : nat) (L : K) (N : Z) (c : nat) (idx : list Z)", "K",
          ipu.call("make_grid", [D, L, N], {"full": Bool("full"), "zero_centered": Bool("zero_centered"), "indexing": xyv}), Mesh)
+    out.append(injections(ip))
+    # wrap_bc (exponax/_utils.py): compared with its expected text; the padding amounts are emitted
+    wb = ipu.funcs.get("wrap_bc")
+    if wb is None:
+        raise TranslationError("wrap_bc not found")
+    wbody = strip_doc(wb.body)
+    wwant = ["_, *spatial_shape = u.shape", "num_spatial_dims = len(spatial_shape)", "padding_config = ((0, 0),) + ((0, 1),) * num_spatial_dims",
+             "u_wrapped = jnp.pad(u, padding_config, mode='wrap')", "return u_wrapped"]
+    if [ast.unparse(x) for x in wbody] != [ast.unparse(ast.parse(t).body[0]) for t in wwant]:
+        raise TranslationError("wrap_bc: " + repr([ast.unparse(x) for x in wbody])[:300])
+    out.append("(* wrap_bc: jnp.pad(mode='wrap') with no padding on the channel axis and (0, 1) on every spatial axis: entry N is entry 0 *)\n"
+               "Definition gen_wrap_bc_pad_before : Z := 0.\nDefinition gen_wrap_bc_pad_after : Z := 1.\n")
     out.append("\nEnd Gen.\n")
     return "\n".join(out)
 
